@@ -178,3 +178,70 @@ package ast
 //@   props C10
 //@   requires symbolTypes != nil && node != nil && *node != nil
 //@   modifies *
+
+//@ func toInt64Nodes
+//@   props C10
+//@   requires forall(i, 0 <= i && i < len(nodes) ==> nodes[i] != nil)
+//@   pure
+//@   ensures[all-converted] result1 ==> len(result0) == len(nodes) && forall(i, 0 <= i && i < len(result0) ==> result0[i] != nil)
+//@   invariant 1: len(result) == rangeindex + 1 && forall(i, 0 <= i && i < len(result) ==> result[i] != nil)
+//@ func toFloat64Nodes
+//@   props C10
+//@   requires forall(i, 0 <= i && i < len(nodes) ==> nodes[i] != nil)
+//@   pure
+//@   ensures[all-converted] result1 ==> len(result0) == len(nodes) && forall(i, 0 <= i && i < len(result0) ==> result0[i] != nil)
+//@   invariant 1: len(result) == rangeindex + 1 && forall(i, 0 <= i && i < len(result) ==> result[i] != nil)
+//@ func NewInt64BetweenOp
+//@   props C10
+//@   requires forall(i, 0 <= i && i < len(nodes) ==> nodes[i] != nil)
+//@   pure
+//@   ensures (result1 == nil) == (len(nodes) == 3) && (result1 == nil ==> result0 != nil)
+//@ func NewFloat64BetweenOp
+//@   props C10
+//@   requires forall(i, 0 <= i && i < len(nodes) ==> nodes[i] != nil)
+//@   pure
+//@   ensures (result1 == nil) == (len(nodes) == 3) && (result1 == nil ==> result0 != nil)
+//@ func NewInArrayExprNode
+//@   props C10
+//@   requires left != nil && right != nil
+//@   pure
+//@   ensures result != nil
+//@ func (*BinaryExprNode).toUpper
+//@   props C10
+//@   requires stringNode != nil
+//@   pure
+//@   ensures result != nil
+//@ func (*BinaryExprNode).handleCaseInsensitive
+//@   props C10
+//@   requires left != nil && right != nil
+//@   pure
+//@   ensures result != nil
+//@ func (BinaryOp).IsCaseInsensitiveOp
+//@   pure
+//@ func (*BinaryExprNode).invalidOpTypes
+//@   props C10
+//@   pure
+//@   ensures result1 != nil
+//@ func (*Float64ArrayNode).AsStringArray
+//@   props C10
+//@   pure
+//@   ensures result != nil
+//@   invariant 1: result != nil && fresh(result) && forall(i, 0 <= i && i < len(result.values) ==> result.values[i] != nil)
+//@ func (*Int64ArrayNode).AsStringArray
+//@   props C10
+//@   pure
+//@   ensures result != nil
+//@   invariant 1: result != nil && fresh(result) && forall(i, 0 <= i && i < len(result.values) ==> result.values[i] != nil)
+//@ func (*Int64ArrayNode).ToFloat64ArrayNode
+//@   props C10
+//@   pure
+//@   ensures result != nil
+//@   invariant 1: result != nil && fresh(result) && forall(i, 0 <= i && i < len(result.values) ==> result.values[i] != nil)
+//@ func (AsStringArrayable).AsStringArray
+//@   pure
+//@   ensures result != nil
+//@ func NewStringArrayNode
+//@   props C10
+//@   pure
+//@   ensures result != nil
+//@   invariant 1: result != nil && fresh(result) && forall(i, 0 <= i && i < len(result.values) ==> result.values[i] != nil)
